@@ -20,7 +20,8 @@ RULE = ("case = generated enum (weighted to permuted declaration order, single-v
 
 PROFILE = S.profile(renames=0.05, dups=0.0, attrs=0.1, orders=["identity", "reverse", "perm", "perm", "perm"],
                     anchors=["min", "min", "max", "max", "zero", "neg", "rand", "narrow_max", "narrow_min"],
-                    shapes=["gapless", "holes", "holes", "many", "many", "lots"])
+                    shapes=["gapless", "holes", "holes", "many", "many", "lots", "lots"],
+                    sizes=[("small", 70), ("medium", 18), ("large", 9), ("full8", 3)])
 
 
 @st.composite
